@@ -558,12 +558,14 @@ def interpolate_ntv2(grid_object, lat, lon, method='bicubic'):
     # Determine number of columns in grid, and row and column of node to bottom right of
     # point of interest, then call relevant interpolation method function
 
-    # determine number of columns
+    # determine number of rows and columns
+    num_rows = 1 + int(round((in_grid.n_lat - in_grid.s_lat) / in_grid.lat_inc))
     num_cols = 1 + int(round((in_grid.w_long - in_grid.e_long) / in_grid.long_inc))
 
-    # determine row and col numbers of node below right of point
-    row = int((lat - in_grid.s_lat) / in_grid.lat_inc)
-    col = int((lon - in_grid.e_long) / in_grid.long_inc)
+    # determine row and col numbers of node below right of point. A point within rounding of the
+    # north or west edge belongs to the last cell: there is no row or column of nodes beyond it.
+    row = min(int((lat - in_grid.s_lat) / in_grid.lat_inc), num_rows - 2)
+    col = min(int((lon - in_grid.e_long) / in_grid.long_inc), num_cols - 2)
 
     # locate data in gsb_file
     skip_bytes = 176    # grid header length
